@@ -48,7 +48,12 @@ type c04Frame struct {
 	// how the handler consumes the payload: "" = io.ReadFull of K bytes from msg.payload;
 	// "data" = msg.data() (the buffering path); "unmarshal" = msg.UnmarshalTo(v);
 	// "readall" = io.ReadAll(msg.payload); "copy" = io.Copy(buf, msg.payload); "close" = msg.Close()
+	// "hash" = io.Copy(md5, msg.payload): the whole payload streamed through a hash, nothing buffered
 	Mode string `json:"mode"`
+	// Pat: the payload is the 64 KiB block verifPayload(Pseed, 65536) repeated up to Plen bytes and is
+	// written block by block (for payloads far beyond the buffering limit: nothing of that size is
+	// materialised on either side)
+	Pat bool `json:"pat"`
 }
 
 // verifCapture is a BinaryUnmarshaler that keeps the bytes it is given.
@@ -330,6 +335,21 @@ func (h c04Handler) HandleMessage(_ *Client, msg Message) {
 		buf, n = bb.Bytes(), bb.Len()
 	case "close":
 		note(msg.Close())
+	case "hash":
+		hh := md5.New()
+		cnt, err := io.Copy(hh, msg.payload)
+		note(err)
+		obs.NRead = int(cnt)
+		obs.MD5 = hex.EncodeToString(hh.Sum(nil))
+		o.mu.Lock()
+		if idx >= 0 {
+			o.recs[idx].Calls = append(o.recs[idx].Calls, obs)
+		}
+		o.mu.Unlock()
+		if b.Panic {
+			verifPanic(b.PKind, int(cnt))
+		}
+		return
 	default:
 		buf = make([]byte, b.K)
 		if b.K > 0 {
@@ -609,6 +629,12 @@ stepLoop:
 		case "chunk":
 			var data []byte
 			var ids []uint32
+			streamed := false
+			for _, f := range st.Frames {
+				if f.Pat {
+					streamed = true
+				}
+			}
 			for _, f := range st.Frames {
 				id := f.ID
 				if f.ReplyTo != nil {
@@ -619,10 +645,45 @@ stepLoop:
 					}
 				}
 				ids = append(ids, id)
-				data = append(data, peerFrame(f.Rsv, f.Ver, f.Typ, id, verifPayload(f.Pseed, f.Plen))...)
+				if !streamed {
+					data = append(data, peerFrame(f.Rsv, f.Ver, f.Typ, id, verifPayload(f.Pseed, f.Plen))...)
+				}
 			}
 			werr := make(chan error, 1)
 			go func(st c04Step) {
+				if streamed {
+					// frame by frame; a patterned payload goes out in 64 KiB writes
+					for k, f := range st.Frames {
+						if !f.Pat {
+							if _, err := peer.Write(peerFrame(f.Rsv, f.Ver, f.Typ, ids[k], verifPayload(f.Pseed, f.Plen))); err != nil {
+								werr <- err
+								return
+							}
+							continue
+						}
+						hdr := peerFrame(f.Rsv, f.Ver, f.Typ, ids[k], nil)
+						n := uint32(f.Plen) + 10
+						hdr[2], hdr[3], hdr[4], hdr[5] = byte(n>>24), byte(n>>16), byte(n>>8), byte(n)
+						if _, err := peer.Write(hdr); err != nil {
+							werr <- err
+							return
+						}
+						block := verifPayload(f.Pseed, 65536)
+						for left := f.Plen; left > 0; {
+							w := len(block)
+							if w > left {
+								w = left
+							}
+							if _, err := peer.Write(block[:w]); err != nil {
+								werr <- err
+								return
+							}
+							left -= w
+						}
+					}
+					werr <- nil
+					return
+				}
 				if st.Seg == "cuts" {
 					werr <- writeCuts(peer, data, st.SegCuts)
 					return
